@@ -578,3 +578,89 @@ Section StockGen.
         * apply (IH _ _ _ _ H k sp); [rewrite app_length; cbn; lia|exact Hn].
   Qed.
 End StockGen.
+
+(** ** ParentBased options *)
+Definition opt_tag (o : pb_option) : N * sampler :=
+  match o with
+  | ORemoteSampled s => (1, s) | ORemoteNotSampled s => (2, s) | OLocalSampled s => (3, s) | OLocalNotSampled s => (4, s)
+  end.
+
+Fixpoint eff_fold {A} (k : N) (opts : list (N * A)) (d : A) : A :=
+  match opts with [] => d | o :: r => eff_fold k r (if fst o =? k then snd o else d) end.
+
+Lemma find_app {A} (p : A -> bool) l1 l2 :
+  find p (l1 ++ l2) = match find p l1 with Some x => Some x | None => find p l2 end.
+Proof. induction l1 as [|x l IH]; cbn; [reflexivity|]. destruct (p x); [reflexivity|exact IH]. Qed.
+
+Lemma eff_fold_effective {A} k (opts : list (N * A)) : forall d, eff_fold k opts d = effective k opts d.
+Proof.
+  unfold effective. induction opts as [|o r IH]; intro d; cbn [eff_fold rev]; [reflexivity|].
+  rewrite IH, find_app. destruct (find (fun o0 => fst o0 =? k) (rev r)); [reflexivity|].
+  cbn. destruct (fst o =? k); reflexivity.
+Qed.
+
+Lemma configure_fold opts : forall c,
+  let c' := fold_left apply_option opts c in
+  c_rs c' = eff_fold 1 (map opt_tag opts) (c_rs c) /\ c_rns c' = eff_fold 2 (map opt_tag opts) (c_rns c) /\
+  c_ls c' = eff_fold 3 (map opt_tag opts) (c_ls c) /\ c_lns c' = eff_fold 4 (map opt_tag opts) (c_lns c).
+Proof.
+  induction opts as [|o r IH]; intro c; cbn [fold_left map eff_fold]; [auto|].
+  destruct (IH (apply_option c o)) as [H1 [H2 [H3 H4]]]. cbn zeta. rewrite H1, H2, H3, H4.
+  destruct o; cbn; auto.
+Qed.
+
+Lemma parent_based_with_spec root opts :
+  let tagged := map opt_tag opts in
+  parent_based_with root opts =
+  SParent root (effective 1 tagged SAlways) (effective 2 tagged SNever)
+               (effective 3 tagged SAlways) (effective 4 tagged SNever).
+Proof.
+  unfold parent_based_with, configure. destruct (configure_fold opts default_config) as [H1 [H2 [H3 H4]]].
+  cbn zeta in *. rewrite H1, H2, H3, H4, !eff_fold_effective. reflexivity.
+Qed.
+
+(** ** the environment *)
+Lemma one_always t : ratio_sampled ONE_BITS t = true.
+Proof. reflexivity. Qed.
+
+Lemma env_ratio_cases arg : (snd (env_ratio arg) = true -> fst (env_ratio arg) = SRatio ONE_BITS) /\
+                            exists bits, fst (env_ratio arg) = SRatio bits.
+Proof.
+  unfold env_ratio. destruct arg as [[bits|]|]; [| split; [reflexivity|eexists; reflexivity] ..].
+  generalize (negb (is_nan (classify bits)) && negb (fle (FFin false 0 0) (classify bits))).
+  generalize (negb (is_nan (classify bits)) && negb (fle (classify bits) (FFin false 1 0))).
+  intros [|] [|]; cbn [fst snd]; (split; [try reflexivity; try discriminate|eexists; reflexivity]).
+Qed.
+
+Lemma sampler_from_env_cases n arg :
+  match sampler_from_env n arg with
+  | (Some s, e) => stock s = true /\ (e = true -> forall t, dec (should_sample s zero_sc t) = RecordAndSample)
+  | (None, e) => e = true
+  end.
+Proof.
+  destruct (env_ratio_cases arg) as [He [bits Hb]].
+  assert (Hn : n = 0 \/ n = 1 \/ n = 2 \/ n = 3 \/ n = 4 \/ n = 5 \/ 5 < n) by lia.
+  destruct Hn as [->|[->|[->|[->|[->|[->|Hn]]]]]].
+  - cbn. split; [reflexivity|discriminate].
+  - cbn. split; [reflexivity|discriminate].
+  - cbn. destruct (env_ratio arg) as [s e]. cbn [fst snd] in *. subst s. split; [reflexivity|].
+    intros -> t. specialize (He eq_refl). inversion He; subst. cbn. now rewrite one_always.
+  - cbn. split; [reflexivity|discriminate].
+  - cbn. split; [reflexivity|discriminate].
+  - cbn. destruct (env_ratio arg) as [s e]. cbn [fst snd] in *. subst s. split; [reflexivity|].
+    intros -> t. specialize (He eq_refl). inversion He; subst. cbn. now rewrite one_always.
+  - destruct env_names as [_ [_ [_ [_ H]]]]. now rewrite (H n arg Hn).
+Qed.
+
+(** Whatever the environment holds, the provider's sampler is a composition of the SDK's own samplers;
+    when the configuration is rejected (unknown name, unparsable or out-of-range ratio) every root is sampled. *)
+Lemma env_sampler_total raw arg :
+  stock (provider_sampler raw arg) = true /\
+  (env_error raw arg = true -> forall t, dec (should_sample (provider_sampler raw arg) zero_sc t) = RecordAndSample).
+Proof.
+  unfold provider_sampler, env_error. destruct raw as [v|]; [|split; [reflexivity|discriminate]].
+  pose proof (sampler_from_env_cases (env_name_index v) arg) as H.
+  destruct (sampler_from_env (env_name_index v) arg) as [[s|] e]; cbn [fst snd] in *.
+  - exact H.
+  - split; [reflexivity|]. intros _ t. reflexivity.
+Qed.
